@@ -482,6 +482,8 @@ def mat_attr(it, m: Mat, name):  # noqa: F811
         return {"row": m.coo[1], "col": m.coo[2], "data": m.coo[3]}[name]
     if name == "nnz" and m.coo is not None:
         return m.coo[0]
+    if name == "format":
+        return m.fmt
     if name == "copy":
         from .interp import PyFunc
 
